@@ -56,6 +56,9 @@ fn main() {
         } else {
             "unknown".to_string()
         };
+        if std::env::var_os("VERIF_PANIC_TRACE").is_some() {
+            eprintln!("panic: {} at {:?}", msg, info.location());
+        }
         *LAST_PANIC.lock().unwrap() = Some(msg);
     }));
     let args: Vec<String> = std::env::args().collect();
